@@ -12,6 +12,7 @@ import (
 	"time"
 
 	"github.com/thomasjungblut/go-sstables/recordio"
+	"github.com/thomasjungblut/go-sstables/simpledb"
 	"github.com/thomasjungblut/go-sstables/sstables"
 )
 
@@ -48,6 +49,9 @@ type c19Case struct {
 	Mode  string   `json:"mode"` // db | reader
 	Opts  dbOpts   `json:"opts"`
 	Steps []dbStep `json:"steps"` // db mode; "reopen" = Close + Open; the program ends with a Close
+	Puts              int  `json:"puts,omitempty"`    // dbbg mode
+	ValLen            int  `json:"val_len,omitempty"` // dbbg mode
+	WaitCompactionDir bool `json:"wait_compaction,omitempty"`
 	Scans []string `json:"scans,omitempty"` // reader mode: full | abandoned | range | mmapseek | seqread | writer
 	// observations
 	After  []resObs `json:"after"` // after every step (db) / every scan (reader)
@@ -56,7 +60,7 @@ type c19Case struct {
 }
 
 func settle(base int) int {
-	// goroutines that are exiting need a moment
+	// goroutines that are exiting need a moment (base = the number that may legitimately stay)
 	for i := 0; i < 50; i++ {
 		if runtime.NumGoroutine() <= base {
 			break
@@ -65,6 +69,7 @@ func settle(base int) int {
 	}
 	return runtime.NumGoroutine() - base
 }
+
 
 func (c *c19Case) Exec() {
 	defer func() {
@@ -93,7 +98,7 @@ func (c *c19Case) Exec() {
 				return
 			}
 			fds, maps := resourcesUnder(dir)
-			c.After = append(c.After, resObs{FDs: fds, Maps: maps, Gor: runtime.NumGoroutine() - base, Tables: len(r.db.VerifTables())})
+			c.After = append(c.After, resObs{FDs: fds, Maps: maps, Gor: settle(base+1) + 1, Tables: len(r.db.VerifTables())})
 		}
 		if err := r.db.Close(); err != nil {
 			c.Fatal = "close: " + err.Error()
@@ -102,6 +107,43 @@ func (c *c19Case) Exec() {
 		fds, maps := resourcesUnder(dir)
 		c.Closed = resObs{FDs: fds, Maps: maps, Gor: settle(base)}
 		// the directory can be removed and re-opened by the same process
+		if err := os.RemoveAll(dir); err != nil {
+			c.Fatal = "remove after close: " + err.Error()
+		}
+		return
+	}
+	if c.Mode == "dbbg" {
+		// background compactor with a 1ms ticker; tiny memstore so every few puts make a table and the compactor is
+		// busy almost all the time; Close arrives at an arbitrary moment of that activity
+		opts := []simpledb.ExtraOption{simpledb.MemstoreSizeBytes(c.Opts.MemstoreBytes), simpledb.CompactionFileThreshold(c.Opts.Threshold),
+			simpledb.CompactionMaxSizeBytes(c.Opts.MaxSize), simpledb.CompactionRunInterval(time.Millisecond)}
+		db, err := simpledb.NewSimpleDB(dir, opts...)
+		must(err)
+		must(db.Open())
+		val := strings.Repeat("v", c.ValLen)
+		for i := 0; i < c.Puts; i++ {
+			if err := db.Put(fmt.Sprintf("key-%04d", i%97), fmt.Sprintf("%s%d", val, i)); err != nil {
+				c.Fatal = "put: " + err.Error()
+				return
+			}
+		}
+		if c.WaitCompactionDir {
+			// wait (bounded) until a compaction is visibly in flight
+			for i := 0; i < 2000; i++ {
+				if m, _ := filepath.Glob(filepath.Join(dir, "sstable_compaction*")); len(m) > 0 {
+					break
+				}
+				time.Sleep(50 * time.Microsecond)
+			}
+		}
+		fds, maps := resourcesUnder(dir)
+		c.After = append(c.After, resObs{FDs: fds, Maps: maps, Gor: runtime.NumGoroutine() - base, Tables: len(db.VerifTables())})
+		if err := db.Close(); err != nil {
+			c.Fatal = "close: " + err.Error()
+			return
+		}
+		fds, maps = resourcesUnder(dir)
+		c.Closed = resObs{FDs: fds, Maps: maps, Gor: settle(base)}
 		if err := os.RemoveAll(dir); err != nil {
 			c.Fatal = "remove after close: " + err.Error()
 		}
@@ -176,6 +218,14 @@ func (c *c19Case) Oracle() (bool, string) {
 	if c.Closed.Gor > 0 {
 		return false, fmt.Sprintf("after Close %d goroutines started by the handle are still running", c.Closed.Gor)
 	}
+	if c.Mode == "dbbg" {
+		for _, o := range c.After {
+			// a compaction in flight holds its own reader and scanner per input, and a writer
+			if o.Maps > 2*o.Tables+2 || o.FDs > o.Tables+6 {
+				return false, fmt.Sprintf("before Close: %d mappings and %d descriptors held for %d live tables", o.Maps, o.FDs, o.Tables)
+			}
+		}
+	}
 	if c.Mode == "db" {
 		for i, o := range c.After {
 			// one mapping per live table (its data file), the WAL descriptor, plus a small constant
@@ -217,7 +267,7 @@ func (c *c19Case) Sx() string {
 	return sxL("n1", sxList(ops), sxList(after), sxL(sxI(c.Closed.FDs), sxI(c.Closed.Maps)))
 }
 
-func (c *c19Case) Nontrivial() bool { return len(c.Steps) >= 5 || len(c.Scans) >= 3 }
+func (c *c19Case) Nontrivial() bool { return len(c.Steps) >= 5 || len(c.Scans) >= 3 || c.Puts >= 100 }
 func (c *c19Case) Kind() string    { return c.Mode }
 
 func genC19(r *rand.Rand, tier string) []Case {
@@ -227,6 +277,29 @@ func genC19(r *rand.Rand, tier string) []Case {
 	}
 	var cases []Case
 	for i := 0; i < n; i++ {
+		if i%6 == 1 {
+			// close while the background compactor is busy
+			cases = append(cases, &c19Case{Mode: "dbbg", Opts: dbOpts{MemstoreBytes: uint64(200 + r.Intn(3000)), Threshold: r.Intn(3), MaxSize: 5 << 30},
+				Puts: 200 + r.Intn(1500), ValLen: 10 + r.Intn(200), WaitCompactionDir: r.Intn(2) == 0})
+			continue
+		}
+		if i%6 == 4 {
+			// an EMPTY table (everything in the oldest run deleted) takes part in later compactions
+			c := &c19Case{Mode: "db", Opts: dbOpts{MemstoreBytes: 1 << 30, Threshold: r.Intn(2), MaxSize: 5 << 30, RatioPct: 20, WBuf: 4096, RBuf: 4096}}
+			c.Steps = append(c.Steps, dbStep{Op: "put", K: []byte("a"), V: []byte("1")}, dbStep{Op: "rotate"}, dbStep{Op: "del", K: []byte("a")}, dbStep{Op: "rotate"}, dbStep{Op: "compact"})
+			for j := 0; j < 2+r.Intn(6); j++ {
+				c.Steps = append(c.Steps, dbStep{Op: "put", K: []byte("b"), V: []byte(fmt.Sprintf("v%d", j))})
+				if r.Intn(2) == 0 {
+					c.Steps = append(c.Steps, dbStep{Op: "del", K: []byte("b")})
+				}
+				c.Steps = append(c.Steps, dbStep{Op: "rotate"}, dbStep{Op: "compact"})
+				if r.Intn(5) == 0 {
+					c.Steps = append(c.Steps, dbStep{Op: "reopen"})
+				}
+			}
+			cases = append(cases, c)
+			continue
+		}
 		if i%3 == 2 {
 			c := &c19Case{Mode: "reader"}
 			kinds := []string{"full", "abandoned", "range", "mmapseek", "seqread", "writer"}
